@@ -52,6 +52,8 @@ def profile(tier):
     p.p_multi_module = 0.35
     p.p_default = 0.3
     p.p_components_of = 0.15
+    p.p_alias = 0.25              # chains of references (A ::= B, B ::= CHOICE ...) that end in another module after a split
+    p.constr['CHOICE'] = p.constr.get('CHOICE', 1.0) * 1.5
     p.n_types = (3, 7)
     return p
 
